@@ -74,3 +74,49 @@ PROP = {
         "design_ref": "DESIGN.md §8 C18, Appendix E.5",
     },
 }
+# --- bREG: getFirst (client/register.go) for any number of client types, ReconnectClient.Close before
+# Subscribe, CacheClient's handler wrapping (client/cache.go)
+PROP["modules"] += ["Gnmi.Props.C18First", "Gnmi.Props.C18CloseFirst", "Gnmi.Props.C18Cache"]
+PROP["theorems"] += ["Gnmi.C18First." + t for t in [
+    "getFirst_returns", "getFirst_not_stuck", "getFirst_progress", "every_run_bounded",
+    "no_goroutine_blocked_forever", "after_return_goroutines_move", "terminal_all_done",
+    "maximal_run_all_done", "result_stable", "first_impl_wins", "all_errors_reported",
+    "all_fail_reports_all", "losers_closed_safe", "losers_closed", "single_type_is_call", "installs_iff",
+    "closed_after_done", "errC_has_room", "dropped_error_deadlocks", "mutant_getFirst_returns_false"]] + [
+    "Gnmi.ClientFirst." + t for t in ["variant_step", "inv_reach", "runGF_reach"]] + [
+    "Gnmi.C18CloseFirst." + t for t in [
+    "closeCs_before_subscribe", "early_close_never_waits", "early_close_single_attempt",
+    "early_close_loop_trace", "reconnect_returns_canceled", "early_close_both_return",
+    "close_then_subscribe_prompt", "early_close_silent_if_connect_fails", "early_close_two_messages"]] + [
+    "Gnmi.C18Cache." + t for t in [
+    "forwards_in_order", "cache_is_identity_on_callbacks", "no_handler", "synced_once", "poll_closes"]]
+PROP["assumptions"] += [
+    "getFirst (client/register.go) is proved for any number of client types on its own LTS (Model/ClientFirst.lean); "
+    "the client LTS keeps treating the connect step as one call, which is what getFirst is for one type "
+    "(C18First.single_type_is_call) and, for several, what first_impl_wins / getFirst_returns say of its result",
+    "hypothesis on fn (InitImpl / Impl.Subscribe): a blocked call returns once ctx is cancelled (rule fnAbort), "
+    "stated like the Impl hypothesis above; enforced on the scripted InitImpls of `rc new gf`",
+]
+PROP["manifest"]["level_text"] += (
+    " getFirst (Props/C18First.lean, LTS Model/ClientFirst.lean: caller, one goroutine per client type, "
+    "buffered errC / unbuffered implC / done, cancellation at any point; any number of types, any outcome script, "
+    "any interleaving): from every reachable configuration a run of at most 4*len(types)+5 transitions ends with "
+    "getFirst returned, and no unreturned configuration is stuck unless some fn is blocked with a live ctx "
+    "(getFirst_returns); every transition decreases a variant and every maximal run ends with the caller and "
+    "every goroutine returned (every_run_bounded, maximal_run_all_done, no_goroutine_blocked_forever); an Impl "
+    "is returned iff some fn succeeded, and it is one of the successes (first_impl_wins); every other "
+    "successful Impl is closed exactly once, the returned one never (losers_closed); an error result carries "
+    "every type's failure exactly once (all_errors_reported); with one type getFirst is a call "
+    "(single_type_is_call). The variant of seeded change c18_seed7 (error dropped once ctx is done) is refuted "
+    "by a reachable stuck configuration (dropped_error_deadlocks). Tied to client/register.go by "
+    "`rc new gf`: client.NewImpl over 0..4 scripted client types, gates opened in scripted order, cancellation "
+    "in between, compared with the model's schedule (runGF_reach) + monitors (winner, leak, dblclose, errs, "
+    "deadline). ReconnectClient.Close BEFORE Subscribe (Props/C18CloseFirst.lean, same client LTS): Close never "
+    "waits, Subscribe makes exactly one attempt with a cancelled context and returns ctx.Err(), both return "
+    "(early_close_both_return, early_close_single_attempt); no handler call if the transport honours the "
+    "cancelled context when connecting (early_close_silent_if_connect_fails), but 'at most one message after "
+    "Close' does not hold for an early Close with a transport that connects and hands out buffered messages "
+    "regardless (early_close_two_messages). CacheClient's handler wrapping (Props/C18Cache.lean) forwards every "
+    "transport notification to the caller's handler exactly once, in order, with the caller's result "
+    "(cache_is_identity_on_callbacks); Error values are not forwarded."
+)
